@@ -140,8 +140,11 @@ ImplicitLoopHead(s, e) ==
              s1 == InitAll(s0, e.b)
              \* tree.run_metaepoch() called by itself (cfg.phases): a metaepoch begins, the tree's counter does not move
              s2 == IF s.cfg.phases = 1 THEN [DoLoopCheck(s1, FALSE) EXCEPT !.mc = s1.mc] ELSE DoLoopCheck(s1, FALSE)
+         \* (a condition the model cannot compute - a user-defined one - has been observed TRUE and never FALSE again: it
+         \* holds at this boundary; scripted verdict sequences are free to fall back to FALSE)
          IN R(s2,
-              IF ~Manual(s) /\ GscModelled(s1) /\ GscVal(s1) THEN {"C05_ReturnsAtFirstBoundary"} ELSE {})
+              IF ~Manual(s) /\ ((GscModelled(s1) /\ GscVal(s1)) \/ (~GscModelled(s1) /\ s1.gscSeen /\ s1.cfg.gsc # "Scripted"))
+              THEN {"C05_ReturnsAtFirstBoundary"} ELSE {})
     ELSE R(s, {})
 
 \* the deme asks the global condition once more after its metaepoch is complete (e.g. after its local condition said
